@@ -284,6 +284,18 @@ func Bodies(thorough bool, yield func(class string, it secs2.Item) bool) bool {
 	if !ok {
 		return false
 	}
+	// deep and bushy nesting: chains up to the decoder's depth limit, and many empty lists before
+	// and beside a deep list (parser or encoder state that accumulates across sibling lists)
+	for _, d := range []int{15, 16, 17, 32, 63, 64} {
+		if !yield("deep", gen.Chain(d).It) {
+			return false
+		}
+	}
+	for _, b := range [][4]int{{1, 0, 0, 63}, {1, 0, 0, 64}, {1, 0, 0, 200}, {2, 1, 64, 64}, {31, 1, 40, 1}, {41, 1, 26, 0}, {63, 62, 1, 1}, {64, 63, 1, 0}, {33, 32, 3, 0}} {
+		if !yield("bushy", gen.Bushy(b[0], b[1], b[2], b[3]).It) {
+			return false
+		}
+	}
 	// lists with an EmptyItem child (outside the stated grammar: observed, not demanded)
 	for _, it := range []secs2.Item{
 		secs2.NewListItem(secs2.NewEmptyItem()),
